@@ -22,7 +22,9 @@ is the mailbox's is_closed, NetworkRef::upgrade yields Some only when not closed
 peers/subscribe/disconnect/peer go through the weak peer-map reference; (4) ownership — the user
 service is owned only by task-owned structs, NetworkInner holds no service clone and only a weak
 ActivePeers, the only broadcast Sender lives in ActivePeersInner (so subscribers see end-of-stream);
-(5) panic inventory of the manager / teardown / API code with re-checked justifications. The assert
+(5) panic inventory of the manager / teardown / API code with re-checked justifications; (6) ownership
+across suspension points - no future other than the tasks shutdown() itself terminates owns the strong
+peer map (and with it the event sender) or a clone of the user's service while suspended at an await. The assert
 on an empty peer map in shutdown() is not dischargeable and is reported as a known finding.
 """
 TRUSTED = ["tokio: JoinSet::shutdown/abort semantics, yield_now returns Pending once, mpsc/oneshot close semantics", "quinn: Endpoint::close / wait_idle / rebind"]
@@ -217,11 +219,13 @@ def run(cx):
         ob.require(ok and kb is not None, "NetworkRef::upgrade", "NetworkRef::upgrade does not gate on !is_closed()", ub.path)
         for fn in ("peers", "disconnect", "peer"):
             b = cx.body(f"{NI}::{fn}")
-            ob.require(len(b.calls_to(f"{CM}::ActivePeersRef::upgrade")) == 1, f"{fn}/weak-upgrade", f"NetworkInner::{fn} does not go through ActivePeersRef::upgrade", b.path)
+            ups = call_sites_through(prog, b, lambda c: name_matches(c.fn, f"{CM}::ActivePeersRef::upgrade"), depth=2)      # inlined view: helpers allowed
+            ob.require(len(ups) == 1, f"{fn}/weak-upgrade", f"NetworkInner::{fn} does not go through ActivePeersRef::upgrade exactly once ({len(ups)})", b.path)
             bad = [c for c in b.calls() if name_matches(c.fn, ("Option::unwrap", "Option::expect", "Result::unwrap", "Result::expect")) and not b.is_cleanup(c.bb)]
             ob.require(not bad, f"{fn}/no-unwrap", f"NetworkInner::{fn} unwraps", b.path)
         sb = cx.body("anemo::network::Network::subscribe")
-        ob.require(len(sb.calls_to(f"{CM}::ActivePeersRef::upgrade")) == 1 and len(sb.calls_to("Option::ok_or_else")) == 1, "subscribe/weak-upgrade", "Network::subscribe does not map a dead peer map to Err", sb.path)
+        ob.require(len(call_sites_through(prog, sb, lambda c: name_matches(c.fn, f"{CM}::ActivePeersRef::upgrade"), depth=2)) == 1
+                   and len(call_sites_through(prog, sb, lambda c: name_matches(c.fn, ("Option::ok_or_else", "Option::ok_or")), depth=2)) == 1, "subscribe/weak-upgrade", "Network::subscribe does not map a dead peer map to Err", sb.path)
 
     with cx.ob("C08.4", "R-SHAPE", "ownership: user service only in task-owned structs; NetworkInner has no service clone and only a weak peer map; single broadcast Sender") as ob:
         svc_owners = []
@@ -253,6 +257,60 @@ def run(cx):
         # subscribe() hands out receivers only; no Sender clone escapes
         sc = [c for c in prog.callers_of(("<tokio::sync::broadcast::Sender<T> as core::clone::Clone>::clone",), crates=["anemo"])]
         ob.require(not sc, "broadcast-sender-cloned", "the peer-event Sender is cloned somewhere", "anemo")
+
+    with cx.ob("C08.6", "R-DROP", "no future outside the shutdown-terminated tasks keeps the peer map / event sender or a clone of the user's service alive across an await") as ob:
+        import re
+        SENS = {
+            "strong peer map (and its event sender)": [r"anemo::network::connection_manager::ActivePeers\b(?!Ref|Inner)",
+                                                       r"alloc::sync::Arc<std::sync::poison::rwlock::RwLock<anemo::network::connection_manager::ActivePeersInner>"],
+            "user service": [r"tower::util::boxed_clone::BoxCloneService<anemo::types::request::Request<bytes::bytes::Bytes>, anemo::types::response::Response<bytes::bytes::Bytes>, core::convert::Infallible>",
+                             r"anemo::network::request_handler::(?:Inbound|BiStream)RequestHandler\b", r"anemo::network::connection_manager::ConnectionManager\b",
+                             r"anemo::routing::route::Route\b", r"anemo::routing::Router\b"],
+        }
+        # tasks that shutdown() itself terminates (C08.1: pending_connections.shutdown(), connection_handlers drained; C12: per-connection JoinSet)
+        ALLOWED = {
+            ("strong peer map (and its event sender)", f"{MGR}::handle_incoming_task"): "task on pending_connections, shut down first thing in shutdown()",
+            ("user service", f"{MGR}::shutdown"): "the manager task itself; returns at the end of shutdown()",
+            ("user service", f"{MGR}::start"): "the manager task itself",
+            ("user service", "anemo::network::request_handler::InboundRequestHandler::start"): "connection handler task, drained by shutdown()",
+            ("user service", "anemo::network::request_handler::BiStreamRequestHandler::do_handle"): "request task on the connection handler's JoinSet",
+            ("user service", "anemo::network::request_handler::BiStreamRequestHandler::handle"): "request task on the connection handler's JoinSet",
+        }
+
+        def owned(ty, pats):
+            if ty.startswith(("&", "*const", "*mut")) or "{closure" in ty or "{async" in ty:
+                return False
+            for pat in pats:
+                t = re.sub(r"&(?:'\w+ )?(?:mut )?" + pat, "", ty)
+                if re.search(pat, t):
+                    return True
+            return False
+        n_coro = n_loc = 0
+        seen_allowed = set()
+        for p, b in prog.bodies.items():
+            if b.crate != "anemo" or not b.coroutine:
+                continue
+            n_coro += 1
+            for i, l in enumerate(b.locals):
+                if i <= 1:
+                    continue
+                for kind, pats in SENS.items():
+                    if not owned(l.get("ty", ""), pats):
+                        continue
+                    n_loc += 1
+                    ys = owned_live_at_yield(b, i)
+                    if not ys:
+                        continue
+                    own = owner_path(prog, b)
+                    if (kind, own) in ALLOWED:
+                        seen_allowed.add((kind, own))
+                        continue
+                    ob.fail("refuted", f"held-across-await/{own}/{l.get('name') or 'tmp'}",
+                            f"{p}: local `{l.get('name') or '_%d' % i}` ({l['ty'][:80]}) owns the {kind} while suspended at {b.loc(ys[0])}; this future is not one of the tasks shutdown() terminates, "
+                            "so the reference can outlive shutdown (subscribers never see end-of-stream / API calls keep succeeding / the service is not released)", p, b.loc(ys[0]))
+        ob.floor(n_coro, 35, "coroutine bodies scanned")
+        ob.floor(n_loc, 6, "locals owning a sensitive value inspected")
+        ob.floor(len(seen_allowed), 4, "known task-owned holders re-identified")
 
     with cx.ob("C08.5", "R-PANIC", "panic inventory of manager / teardown / API code: every site justified; shutdown()'s empty-map assert is not dischargeable") as ob:
         lb = loop_body(cx)
